@@ -34,7 +34,9 @@ def run(ctx):
     ctx.rule('R10.3', 'operator spacing is two-sided with existence/whitespace guards', floor=3)
     ctx.rule('R10.4', 'the serializer runs last and right-strips every line', floor=1)
     ctx.rule('R10.5', 'whitespace collapsing rules of StripWhitespaceFilter', floor=4)
+    ctx.rule('R10.6', 'every whitespace/newline token a layout filter inserts is a new object (no token shared between positions or calls)', floor=20)
     V = VC.get_vocab(ctx)
+    RF.check_fresh_insertions(ctx, 'R10.6')
     check_split_table(ctx, V)
     check_composition(ctx, 'R10.2')
     check_implies_strip(ctx)
